@@ -432,6 +432,9 @@ func (e *Exec) vpCall(caller *frame, fn *ssa.Function, args []Value) Value {
 		return e.now()
 	case "SetUF":
 		return nil
+	case "PoolMode":
+		e.poolMode = int(args[0].(*Term).k)
+		return nil
 	case "SetDial":
 		e.dialConn = args[0].(Iface)
 		return nil
